@@ -93,6 +93,7 @@ private:
     while (change) {
       change = false;
       ++iterations;
+      CRAB_VERIF_TICK();
       for (unsigned i = 0, e = order.size(); i < e; ++i) {
         auto const &n = order[i];
         auto in = (i == 0 ? m_analysis.entry() : killgen_domain_t::bottom());
@@ -119,6 +120,7 @@ private:
     while (change) {
       change = false;
       ++iterations;
+      CRAB_VERIF_TICK();
       for (unsigned i = 0, e = order.size(); i < e; ++i) {
         auto const &n = order[i];
         auto out = (i == 0 ? m_analysis.entry() : killgen_domain_t::bottom());
